@@ -249,7 +249,7 @@ fn coarse_case(ctx: &mut Ctx, mix: &str, events: &[String]) {
 pub fn run(ctx: &mut Ctx) {
     let quick = ctx.quick();
     // (a) fine-grained.  quick: no CONN with preemption bound 4, one CONN with bound 2.  thorough: bounds 8 / 4 / 3 for 0 / 1 / 2 CONN.
-    let plans: Vec<(usize, usize)> = if quick { vec![(0, 4), (1, 2)] } else { vec![(0, 8), (1, 4), (2, 3)] };
+    let plans: Vec<(usize, usize)> = if quick { vec![(0, 4), (1, 2)] } else { vec![(0, 8), (1, 5), (2, 4)] };
     for (max_conn, bound) in &plans {
         let mut f = Fine { ctx, max_conn: *max_conn, bound: *bound, top_level_sharded: true };
         // every worker runs the root schedule (cheap) and shares out the first-level alternatives
